@@ -39,6 +39,7 @@ type KnownFinding struct {
 type decision struct {
 	idx     int
 	payload int64
+	seq     int // ordinal of the decide call within the step
 }
 
 type alt struct {
@@ -51,6 +52,28 @@ type forkReq struct {
 	alts   []alt
 	prefix []decision
 	what   string
+	seq    int
+}
+
+// nextPre allocates the ordinal of a decide call within the current step and
+// returns the pre-resolved decision for it, if any.
+func (e *Engine) nextPre() (decision, bool, int) {
+	k := e.decSeq
+	e.decSeq++
+	for _, d := range e.pre {
+		if d.seq == k {
+			e.preUsed++
+			return d, true, k
+		}
+	}
+	return decision{}, false, k
+}
+
+func (e *Engine) fork(what string, alts []alt, k int) {
+	if e.inRoot {
+		panic(fmt.Sprintf("symbolic decision during root initialisation: %s", what))
+	}
+	panic(&forkReq{alts: alts, prefix: append([]decision(nil), e.pre...), what: what, seq: k})
 }
 
 type pathAbort struct{ why string }
@@ -222,13 +245,15 @@ func (e *Engine) restore(s *snapshot) {
 // decide picks one of several alternatives; constant-false alternatives are
 // dropped; a single remaining alternative is returned without forking.
 func (e *Engine) decide(what string, alts []alt) (int, int64) {
-	if e.preIdx < len(e.pre) {
-		d := e.pre[e.preIdx]
-		e.preIdx++
+	d, ok, k := e.nextPre()
+	if ok {
 		return d.idx, d.payload
 	}
+	return e.decideAt(what, alts, k)
+}
+
+func (e *Engine) decideAt(what string, alts []alt, k int) (int, int64) {
 	live := 0
-	last := -1
 	for i := range alts {
 		if alts[i].cond.IsFalse() {
 			continue
@@ -237,16 +262,12 @@ func (e *Engine) decide(what string, alts []alt) (int, int64) {
 			return i, alts[i].payload
 		}
 		live++
-		last = i
 	}
 	if live == 0 {
 		panic(&pathAbort{"infeasible:" + what})
 	}
-	_ = last
-	if e.inRoot {
-		panic(fmt.Sprintf("symbolic decision during root initialisation: %s", what))
-	}
-	panic(&forkReq{alts: alts, prefix: append([]decision(nil), e.pre[:e.preIdx]...), what: what})
+	e.fork(what, alts, k)
+	return 0, 0
 }
 
 // branch decides a symbolic boolean.
@@ -254,12 +275,14 @@ func (e *Engine) branch(c *Term) bool {
 	if c.op == OpConst {
 		return c.c == 1
 	}
-	if e.preIdx >= len(e.pre) {
-		if v, ok := e.litKnown(c); ok {
-			return v
-		}
+	d, ok, k := e.nextPre()
+	if ok {
+		return d.idx == 0
 	}
-	i, _ := e.decide("if", []alt{{cond: c}, {cond: e.tt.Not(c)}})
+	if v, ok := e.litKnown(c); ok {
+		return v
+	}
+	i, _ := e.decideAt("if", []alt{{cond: c}, {cond: e.tt.Not(c)}}, k)
 	return i == 0
 }
 
@@ -370,7 +393,7 @@ func (e *Engine) explore() {
 		*e.stepTop = e.stepFr
 		*e.th = e.stepTh
 		e.th.top = e.stepTop
-		e.pre, e.preIdx = nil, 0
+		e.pre, e.preUsed, e.decSeq = nil, 0, 0
 		snap := e.snapshot()
 		e.res.Forks++
 		if e.cfg.Verbose > 0 {
@@ -415,13 +438,13 @@ func (e *Engine) explore() {
 			}
 			e.assumeTerm(a.cond)
 			if !e.shardSkip() {
-				e.pre = append(append([]decision(nil), req.prefix...), decision{i, a.payload})
-				e.preIdx = 0
+				e.pre = append(append([]decision(nil), req.prefix...), decision{i, a.payload, req.seq})
+				e.preUsed, e.decSeq = 0, 0
 				e.explore()
 			}
 			e.sv.Pop()
 			e.restore(snap)
-			e.pre, e.preIdx = nil, 0
+			e.pre, e.preUsed, e.decSeq = nil, 0, 0
 			if e.res.Truncated || (e.cfg.StopOnViolation && len(e.res.Violations) > 0) {
 				return
 			}
@@ -474,6 +497,9 @@ func (e *Engine) regionsFor(label string) []regionRec {
 func (e *Engine) recordViolation(v *Violation) {
 	v.Shard = e.cfg.Shard
 	v.Choices = e.choiceStrings()
+	for _, o := range e.ps.observes {
+		v.Msg += fmt.Sprintf("\n      observe %s = %s", o.name, e.deepString(o.val, 0))
+	}
 	e.res.Violations = append(e.res.Violations, v)
 	if e.cfg.Verbose > 0 {
 		fmt.Fprintf(os.Stderr, "[shard %d] violation %s %s at %s: %s\n", e.cfg.Shard, v.Kind, v.Label, v.Site, v.Msg)
@@ -702,4 +728,26 @@ func (e *Engine) curInstr() string {
 		return fmt.Sprintf("%T %v", ins, ins)
 	}
 	return "?"
+}
+
+func (e *Engine) deepString(v Value, d int) string {
+	if d > 3 {
+		return "..."
+	}
+	switch o := v.O.(type) {
+	case *Iface:
+		return e.deepString(o.v, d)
+	case *Slice:
+		var sb strings.Builder
+		sb.WriteString("[")
+		for i := 0; i < o.len && i < 16; i++ {
+			if i > 0 {
+				sb.WriteString(" ")
+			}
+			sb.WriteString(e.deepString(e.arrGet(o.arr, o.off+i), d+1))
+		}
+		sb.WriteString("]")
+		return sb.String()
+	}
+	return v.String()
 }
